@@ -23,6 +23,7 @@ import os
 import random
 import re
 import shlex
+import signal
 
 from .. import run as R
 from ..harness import add_violation, bump, case_result
@@ -229,6 +230,38 @@ def show(exp):
 def short(v, n=160):
     s = v if isinstance(v, str) else json.dumps(v, ensure_ascii=False) if not isinstance(v, tuple) else repr(v)
     return s if len(s) <= n else s[:n] + f"...({len(s)} chars)"
+
+
+# ==========================================================================================
+# CPU budget for the REFERENCE side: Python's backtracking re can take exponential time on a pattern that Go's
+# linear-time engine answers at once; such a row is declined (skipped), never guessed
+
+class _RefBudget(Exception):
+    pass
+
+
+def _ref_budget_handler(signum, frame):
+    raise _RefBudget()
+
+
+def budgeted(res, fn, *args, seconds=3.0, count=True):
+    """Run fn(*args) under a CPU-time budget of this process; on overrun count one skipped row. -> finished?"""
+    try:
+        old = signal.signal(signal.SIGVTALRM, _ref_budget_handler)
+    except ValueError:          # not the main thread: no budget available
+        fn(*args)
+        return True
+    signal.setitimer(signal.ITIMER_VIRTUAL, seconds)
+    try:
+        fn(*args)
+        return True
+    except _RefBudget:
+        res["skipped"] += 1 if count else 0
+        bump(res, "skipped:reference-regex-cpu-budget")
+        return False
+    finally:
+        signal.setitimer(signal.ITIMER_VIRTUAL, 0)
+        signal.signal(signal.SIGVTALRM, old)
 
 
 # ==========================================================================================
@@ -1012,10 +1045,7 @@ def capseq_case(case, rng, res, st):
         rows.append({"a": a, "b1": pats[0][1], "b2": pats[1][1], "b3": pats[2][1]})
         meta.append(pats)
     outs = eval_rows(prog, rows, stats=st)
-    for row, pats, rec in zip(rows, meta, outs):
-        if isinstance(rec, Fail):
-            fail_violation(res, rec, "captures", "capseq", argv, json_rows([row]), f"capture-state sequence on {row['a']!r}")
-            continue
+    def judge(row, pats, rec):
         a = row["a"]
         state = None
         trail = ["start"]
@@ -1035,7 +1065,7 @@ def capseq_case(case, rng, res, st):
             return True
 
         if not observe(0):
-            continue
+            return
         for i, stp in enumerate(steps, 1):
             if stp[0] in ("eq", "ne"):
                 node, go, py = pats[stp[1] - 1]
@@ -1060,6 +1090,12 @@ def capseq_case(case, rng, res, st):
                 break
         if len(kinds) >= 2:
             res["nontrivial_keys"].append(_h("capseq", a, row["b1"], row["b2"], row["b3"], steps))
+
+    for row, pats, rec in zip(rows, meta, outs):
+        if isinstance(rec, Fail):
+            fail_violation(res, rec, "captures", "capseq", argv, json_rows([row]), f"capture-state sequence on {row['a']!r}")
+            continue
+        budgeted(res, judge, row, pats, rec)
     res["sample"] = {"monitor": "re/capseq", "steps": steps, "subject": rows[0]["a"]}
 
 
@@ -1133,10 +1169,10 @@ def re_case(case):
                 fail_violation(res, rec, "regex", "data", argv, json_rows([row]), f"regex functions on {row['a']!r} with {row['b']!r}")
                 continue
             if slash:
-                slash_check_row(res, rec, row, py, slash, ng, argv)
+                budgeted(res, slash_check_row, res, rec, row, py, slash, ng, argv)
                 continue
-            re_check_row(res, rec, row["a"], go, py, ci, ng, ml, row["c"], row["d"], argv, row, "data" + ("-quoted" if row["b"] != go else ""),
-                         node is not None and (ng >= 1 or M.rx_has_alt(node)))
+            budgeted(res, re_check_row, res, rec, row["a"], go, py, ci, ng, ml, row["c"], row["d"], argv, row,
+                     "data" + ("-quoted" if row["b"] != go else ""), node is not None and (ng >= 1 or M.rx_has_alt(node)))
         if fill:
             bump(res, "regex_cache_fill_patterns", fill)
         res["sample"] = {"monitor": "re/data", "subject": rows[0]["a"], "regex": rows[0]["b"], "replacement": rows[0]["c"]}
@@ -1159,8 +1195,8 @@ def re_case(case):
             if isinstance(rec, Fail):
                 fail_violation(res, rec, "regex", mode, argv, json_rows([row]), f"regex functions on {row['a']!r} with literal {lit}")
                 continue
-            re_check_row(res, rec, row["a"], go, py, ci, ng, ml, row["c"], row["d"], argv, row, "lit",
-                         ng >= 1 or M.rx_has_alt(node))
+            budgeted(res, re_check_row, res, rec, row["a"], go, py, ci, ng, ml, row["c"], row["d"], argv, row, "lit",
+                     ng >= 1 or M.rx_has_alt(node))
         res["sample"] = {"monitor": "re/" + mode, "subject": rows[0]["a"], "regex": lit, "replacement": rows[0]["c"]}
     for k, v in st.items():
         bump(res, k, v)
@@ -1896,7 +1932,10 @@ def subs_case(case):
                               dict(detail, record=rec))
             continue
         for k, v in rec.items():
-            e = ref(v) if chosen(k) else v
+            e = v
+            if chosen(k):
+                box = []
+                e = box[0] if budgeted(res, lambda: box.append(ref(v)), count=False) else DECLINE
             gv, gf = a[k], b[k]
             nfield += 1
             if gv != v:
@@ -2531,7 +2570,7 @@ def run(chk):
         for i in range(200 if q else 3000):
             cases.append({"seed": f"{chk.seed}/verb/{i}", "verb": verbs[i % len(verbs)], "n": 12})
         laws = ["gsub", "sub", "gsub", "sub", "ssub"]
-        for i in range(240 if q else 4000):
+        for i in range(240 if q else 2500):
             # every 60th case crosses the 500-record batch boundary
             cases.append({"seed": f"{chk.seed}/verb/subs-law/{i}", "verb": "subs-law", "which": laws[i % len(laws)],
                           "n": 520 if i % 60 == 7 else 10})
